@@ -110,7 +110,7 @@ def judge(case, rc, stdout, log):
     if kind == "dag2":
         kind = "dag"
     out = []
-    valid_line = "appears valid" in stdout
+    valid_line = "appears valid" in stdout or bool(case.get("live"))
     events = [tuple(l.split(" ", 1)) for l in log.splitlines() if " " in l]
     if kind == "anti":
         # some dependencies are declared from the provider's side (module_antidepends): the documented promise is the unload order
@@ -222,6 +222,13 @@ def _worker(a):
             if os.path.exists(log):
                 os.unlink(log)
             env = hrun.san_env(leaks=False, extra=dict({"VERIF_MODGRAPH": case["genv"], "VERIF_MODLOG": log}, **({"VERIF_MODSLOW": case["slow"]} if case.get("slow") else {})))
+            if case.get("live"):
+                rc, so, se, hang = _live_run(exe, conf, env, scratch, moddir, case)
+                lg = open(log).read() if os.path.exists(log) else ""
+                v = [("hang", "live run did not finish for graph %s listing %s" % (case["genv"], case["listing"]))] if hang else judge(case, rc, so, lg)
+                san = daemon.parse_sanitizer(se)
+                res.append((case, rc, v, [(s["kind"], s["func"]) for s in san], lg if v else "", len(lg.splitlines())))
+                continue
             try:
                 p = subprocess.run([exe, "-k", "-n", "-f", conf], stdin=subprocess.DEVNULL, stdout=subprocess.PIPE,
                                    stderr=subprocess.PIPE, env=env, cwd=scratch, timeout=60)
@@ -239,6 +246,58 @@ def _worker(a):
     finally:
         shutil.rmtree(scratch, ignore_errors=True)
     return res
+
+
+def _live_run(exe, conf, env, scratch, moddir, case):
+    """The daemon is started for real (no -k), reloaded once or twice by SIGUSR1 with another `modules` list - names added that
+    are not loaded (existing or not), names dropped, another order - and then told to stop (SIGHUP): the modules of the start-up
+    list are still unloaded once each, in dependency order.  The guarded reload marker tells when a reload is over."""
+    import select
+    import signal
+    import time
+    env = dict(env, IAUTHD_VERIF_MARK="1")
+    p = subprocess.Popen([exe, "-n", "-f", conf], stdin=subprocess.PIPE, stdout=subprocess.PIPE, stderr=subprocess.PIPE, env=env, cwd=scratch)
+    out = b""
+    hang = False
+    try:
+        t_end = time.time() + 30
+        while time.time() < t_end:       # signal handlers are installed once the event loop is about to run
+            try:
+                if open("/proc/%d/syscall" % p.pid).read().split()[0] in ("232", "281", "441"):
+                    break
+            except (OSError, IndexError):
+                break
+            if p.poll() is not None:
+                break
+            time.sleep(0.005)
+        for ri, lst2 in enumerate(case["relists"]):
+            if p.poll() is not None:
+                break
+            with open(conf, "w") as f:
+                f.write('core {\n library_path ( "%s" );\n modules ( %s );\n};\n' % (moddir, ", ".join(lst2)))
+            p.send_signal(signal.SIGUSR1)
+            t_end = time.time() + 30
+            while out.count(b"#verif reload") < ri + 1:
+                if time.time() > t_end or p.poll() is not None:
+                    break
+                r_, _, _ = select.select([p.stdout], [], [], 0.2)
+                if r_:
+                    c = os.read(p.stdout.fileno(), 65536)
+                    if not c:
+                        break
+                    out += c
+        if p.poll() is None:
+            p.send_signal(signal.SIGHUP)
+        try:
+            so, se = p.communicate(timeout=30)
+        except subprocess.TimeoutExpired:
+            p.kill()
+            so, se = p.communicate()
+            hang = True
+        return p.returncode, (out + so).decode("latin-1"), se.decode("latin-1"), hang
+    finally:
+        if p.poll() is None:
+            p.kill()
 
 
 def listings_for(edges, n, rng, how_many):
@@ -281,6 +340,27 @@ def gen_cases(tier, seed, scale):
             if rng.random() < 0.12:
                 # unloading takes its time: one or two destructors need 12-40 ms each (the order still has to hold)
                 cases[-1]["slow"] = ";".join("%s:%d" % (NAMES[u], rng.choice([12, 20, 40])) for u in rng.sample(range(n), rng.choice([1, 2])))
+    # live runs: started for real, reloaded with another modules list, stopped by SIGHUP
+    for _ in range(int((40 if tier == "quick" else 600) * scale) or 1):
+        n = rng.randint(2, 5)
+        perm = list(range(n))
+        rng.shuffle(perm)
+        edges = [(perm[i], perm[j]) for i in range(n) for j in range(i + 1, n) if rng.random() < 0.4]
+        lst = list(rng.choice(listings_for(edges, n, rng, 6)))
+        relists = []
+        for _r in range(rng.choice([1, 1, 2])):
+            l2 = [NAMES[u] for u in lst]
+            how = rng.random()
+            if how < 0.4:
+                l2.insert(rng.randint(0, len(l2)), rng.choice(["aaa_nosuchmod", "zzz_nosuchmod", NAMES[5], "m0m"]))
+            elif how < 0.6 and len(l2) > 1:
+                l2.pop(rng.randrange(len(l2)))
+            elif how < 0.8:
+                rng.shuffle(l2)
+            else:
+                l2 = [NAMES[u] for u in range(n)] + ["nosuchmod"]
+            relists.append(l2)
+        cases.append({"kind": "dag", "n": n, "edges": edges, "listing": lst, "genv": graph_env(edges, rng), "live": True, "relists": relists})
     # dependencies declared from the provider's side (module_antidepends, README): DAGs in which a random non-empty subset of the
     # edges is declared that way; every module is listed so that what gets loaded does not depend on who pulls in whom
     for _ in range(int((400 if tier == "quick" else 6000) * scale)):
@@ -429,6 +509,8 @@ def run(chk, tier, scale=1.0):
                 chk.count("runs_with_hookless_modules")
             if case.get("slow"):
                 chk.count("runs_with_slow_destructors")
+            if case.get("live"):
+                chk.count("live_runs_with_reloaded_module_list")
             if case["n"] >= 200:
                 chk.count("runs_with_hundreds_of_modules")
             chk.add_case(vcommon.h(key + (tuple(map(tuple, case.get("anti", ()))),)), nev > 0 or case["kind"] not in ("dag", "anti", "dag2"))
